@@ -91,6 +91,9 @@ pub enum Seg {
     /// random bytes over an alphabet of `alphabet` symbols: a short match at every position, none of them
     /// long (keeps the optimal parser inside one long pricing pass)
     Tiles { len: u32, alphabet: u8, seed: u64 },
+    /// E8 / E9 / 00 / FF each with probability 1/8, random bytes otherwise: clusters of x86 branch opcodes and
+    /// "convertible" high bytes everywhere, so that every buffer boundary of the x86 filter falls inside one
+    X86Soup { len: u32, seed: u64 },
 }
 
 impl Seg {
@@ -104,7 +107,8 @@ impl Seg {
             | Seg::Opcode { len, .. }
             | Seg::Exe { len, .. }
             | Seg::Mixed { len, .. }
-            | Seg::Tiles { len, .. } => *len,
+            | Seg::Tiles { len, .. }
+            | Seg::X86Soup { len, .. } => *len,
         }
     }
 }
@@ -180,6 +184,19 @@ impl Data {
                         for i in 0..len as usize {
                             out.push(f[(o + i) % f.len()]);
                         }
+                    }
+                }
+                Seg::X86Soup { len, seed } => {
+                    let mut r = Prng::new(seed);
+                    for _ in 0..len {
+                        let x = r.next();
+                        out.push(match x & 7 {
+                            0 => 0xE8,
+                            1 => 0xE9,
+                            2 => 0x00,
+                            3 => 0xFF,
+                            _ => (x >> 24) as u8,
+                        });
                     }
                 }
                 Seg::Tiles { len, alphabet, seed } => {
@@ -393,7 +410,8 @@ pub fn seg_strategy(max_len: u32) -> BoxedStrategy<Seg> {
         1 => (l.clone(), 0u8..8, any::<u32>())
             .prop_map(|(len, file, off)| Seg::Exe { len, file, off }),
         3 => (l.clone(), any::<u64>()).prop_map(|(len, seed)| Seg::Mixed { len, seed }),
-        1 => (l, 2u8..8, any::<u64>()).prop_map(|(len, alphabet, seed)| Seg::Tiles { len, alphabet, seed }),
+        1 => (l.clone(), 2u8..8, any::<u64>()).prop_map(|(len, alphabet, seed)| Seg::Tiles { len, alphabet, seed }),
+        1 => (l, any::<u64>()).prop_map(|(len, seed)| Seg::X86Soup { len, seed }),
     ]
     .boxed()
 }
